@@ -308,6 +308,8 @@ func (d *driver) flush(run *core.Run) {
 	}
 	confirmed := map[string]bool{}
 	tried := map[string]int{}
+	evals := atomic.LoadInt64(&d.evals) // confirmation runs are not counted as evaluations
+	defer func() { atomic.StoreInt64(&d.evals, evals) }()
 	for _, h := range hits {
 		k := key(h.sig)
 		if h.alone {
